@@ -36,12 +36,12 @@ Proof.
   rewrite (Hind x sec al P_text None). reflexivity.
 Qed.
 
-Definition data_ev (fc : bool) (o : obj) : list event := asm P_text None (emit_data_obj fc o).
+Definition data_ev (fc : bool) (prog : list obj) (o : obj) : list event := asm P_text None (emit_data_obj fc prog o).
 Definition text_ev (pic : bool) (prog : list obj) (o : obj) : list event := asm P_text None (emit_text_obj pic prog o).
 
-Lemma data_blk_indep fc o sec al sec' al' : asm sec al (emit_data_obj fc o) = asm sec' al' (emit_data_obj fc o).
+Lemma data_blk_indep fc prog o sec al sec' al' : asm sec al (emit_data_obj fc prog o) = asm sec' al' (emit_data_obj fc prog o).
 Proof.
-  unfold emit_data_obj. destruct (ob_function o || negb (ob_definition o)); [reflexivity|].
+  unfold emit_data_obj. destruct (ob_function o || negb (ob_definition o)); [reflexivity|]. destruct (negb (owner_live prog o)); [reflexivity|].
   destruct (ob_static o), (fc && ob_tentative o && negb (ob_tls o)), (ob_init o), (ob_tls o), (ob_rel o); reflexivity.
 Qed.
 Lemma text_blk_indep pic prog o sec al sec' al' : asm sec al (emit_text_obj pic prog o) = asm sec' al' (emit_text_obj pic prog o).
@@ -51,10 +51,10 @@ Proof.
 Qed.
 
 Theorem asm_emit o prog :
-  asm P_text None (emit o prog) = flat_map (data_ev (fcommon o)) prog ++ flat_map (text_ev (fpic o) prog) prog.
+  asm P_text None (emit o prog) = flat_map (data_ev (fcommon o) prog) prog ++ flat_map (text_ev (fpic o) prog) prog.
 Proof.
-  unfold emit. destruct (asm_app (flat_map (emit_data_obj (fcommon o)) prog) P_text None (flat_map (emit_text_obj (fpic o) prog) prog)) as (s' & a' & E).
-  rewrite E. rewrite (asm_flat_map _ (data_blk_indep (fcommon o))), (asm_flat_map _ (text_blk_indep (fpic o) prog)). reflexivity.
+  unfold emit. destruct (asm_app (flat_map (emit_data_obj (fcommon o) prog) prog) P_text None (flat_map (emit_text_obj (fpic o) prog) prog)) as (s' & a' & E).
+  rewrite E. rewrite (asm_flat_map _ (data_blk_indep (fcommon o) prog)), (asm_flat_map _ (text_blk_indep (fpic o) prog)). reflexivity.
 Qed.
 
 (* ---------- the entry of s depends on the events that name s ---------- *)
@@ -127,35 +127,50 @@ Lemma ev_refs_flat_map {A} s (g : A -> list event) l : ev_refs s (flat_map g l) 
 Proof. induction l as [|x r IH]; [reflexivity|]. cbn [flat_map]. rewrite ev_refs_app, IH. reflexivity. Qed.
 
 (* ---------- closed forms of the blocks ---------- *)
-Definition emits_data (o : obj) : bool := negb (ob_function o) && ob_definition o.
+Definition emits_data (prog : list obj) (o : obj) : bool := negb (ob_function o) && ob_definition o && owner_live prog o.
 Definition data_place (o : obj) : place :=
   if ob_init o then (if ob_tls o then P_tdata else P_data) else (if ob_tls o then P_tbss else P_bss).
-Definition data_core (fc : bool) (o : obj) : list event :=
-  if emits_data o then
+Definition data_core (fc : bool) (prog : list obj) (o : obj) : list event :=
+  if emits_data prog o then
     EBind (ob_name o) (if ob_static o then B_local else B_global) ::
     if fc && ob_tentative o && negb (ob_tls o) then [EComm (ob_name o) (ob_size o) (eff_align o)]
     else [EType (ob_name o) T_object; ESize (ob_name o) (ob_size o); EDef (ob_name o) (data_place o) (Some (eff_align o))]
   else [].
-Definition data_refs (fc : bool) (s : ident) (o : obj) : list bool :=
-  if emits_data o && negb (fc && ob_tentative o && negb (ob_tls o)) && ob_init o then
+Definition data_refs (fc : bool) (prog : list obj) (s : ident) (o : obj) : list bool :=
+  if emits_data prog o && negb (fc && ob_tentative o && negb (ob_tls o)) && ob_init o then
     match ob_rel o with Some t => if ident_eqb s (User t) then [false] else [] | None => [] end
   else [].
 
-Lemma emits_data_alt o : ob_function o || negb (ob_definition o) = negb (emits_data o).
-Proof. unfold emits_data. destruct (ob_function o), (ob_definition o); reflexivity. Qed.
+Lemma emits_data_alt prog o : (if ob_function o || negb (ob_definition o) then true else negb (owner_live prog o)) = negb (emits_data prog o).
+Proof. unfold emits_data. destruct (ob_function o), (ob_definition o), (owner_live prog o); reflexivity. Qed.
 
-Lemma core_data_ev s fc o : core s (data_ev fc o) = if same_name s o then data_core fc o else [].
+Lemma emit_data_obj_alt fc prog o : emit_data_obj fc prog o =
+  if emits_data prog o then
+    (if ob_static o then D_local (ob_name o) else D_globl (ob_name o)) ::
+    if fc && ob_tentative o && negb (ob_tls o) then [D_comm (ob_name o) (ob_size o) (eff_align o)]
+    else if ob_init o then
+      D_section (if ob_tls o then P_tdata else P_data) :: D_type (ob_name o) T_object :: D_size (ob_name o) (ob_size o) :: D_align (eff_align o) :: D_label (ob_name o) ::
+      match ob_rel o with
+      | Some t => [D_quad (User t); D_bytes (ob_size o - 8)]
+      | None => [D_bytes (ob_size o)]
+      end
+    else
+      [D_section (if ob_tls o then P_tbss else P_bss); D_type (ob_name o) T_object; D_size (ob_name o) (ob_size o); D_align (eff_align o); D_label (ob_name o); D_zero (ob_size o)]
+  else [].
+Proof. unfold emit_data_obj, emits_data. destruct (ob_function o), (ob_definition o), (owner_live prog o); reflexivity. Qed.
+
+Lemma core_data_ev s fc prog o : core s (data_ev fc prog o) = if same_name s o then data_core fc prog o else [].
 Proof.
-  unfold data_ev, emit_data_obj, data_core, data_place, same_name. rewrite emits_data_alt.
-  destruct (emits_data o); cbn [negb]; [|destruct (ident_eqb s (ob_name o)); reflexivity].
+  unfold data_ev. rewrite emit_data_obj_alt. unfold data_core, data_place, same_name.
+  destruct (emits_data prog o); cbn [negb]; [|destruct (ident_eqb s (ob_name o)); reflexivity].
   destruct (ob_static o), (fc && ob_tentative o && negb (ob_tls o)), (ob_init o), (ob_tls o), (ob_rel o);
     cbn [asm core filter ev_name is_ref negb app insn_events]; rewrite ?andb_true_r, ?andb_false_r;
     destruct (ident_eqb s (ob_name o)); reflexivity.
 Qed.
-Lemma refs_data_ev s fc o : ev_refs s (data_ev fc o) = data_refs fc s o.
+Lemma refs_data_ev s fc prog o : ev_refs s (data_ev fc prog o) = data_refs fc prog s o.
 Proof.
-  unfold data_ev, emit_data_obj, data_refs. rewrite emits_data_alt.
-  destruct (emits_data o); cbn [negb andb]; [|reflexivity].
+  unfold data_ev. rewrite emit_data_obj_alt. unfold data_refs.
+  destruct (emits_data prog o); cbn [negb andb]; [|reflexivity].
   destruct (ob_static o), (fc && ob_tentative o && negb (ob_tls o)), (ob_init o), (ob_tls o), (ob_rel o);
     cbn [asm ev_refs flat_map app negb andb]; rewrite ?app_nil_r; reflexivity.
 Qed.
@@ -257,9 +272,9 @@ Qed.
 (* ---------- the table entry of s in the output of emit ---------- *)
 Theorem symtab_closed_form o prog s :
   sym_lookup (asm P_text None (emit o prog)) s =
-  look s (flat_map (fun x => if same_name s x then data_core (fcommon o) x else []) prog ++
+  look s (flat_map (fun x => if same_name s x then data_core (fcommon o) prog x else []) prog ++
           flat_map (fun x => if same_name s x then text_core x else []) prog)
-         (flat_map (data_refs (fcommon o) s) prog ++ flat_map (text_refs s) prog).
+         (flat_map (data_refs (fcommon o) prog s) prog ++ flat_map (text_refs s) prog).
 Proof.
   rewrite sym_lookup_look, asm_emit, core_app, ev_refs_app, !core_flat_map, !ev_refs_flat_map. f_equal.
   - f_equal; apply flat_map_ext; intros x; [apply core_data_ev|apply core_text_ev].
